@@ -80,6 +80,12 @@ func oracleBytes(b []byte) (string, string) {
 	if err == nil && len(b) == common.AddressBytes && !bytes.Equal(a.Bytes(), b) {
 		msg = fmt.Sprintf("SetBytes(%x) accepted but Bytes() = %x", b, a.Bytes())
 	}
+	if err == nil && msg == "" {
+		var c common.Address
+		if e := c.SetStringStrict(a.String()); e != nil || !bytes.Equal(c.Bytes(), a.Bytes()) {
+			msg = fmt.Sprintf("SetBytes(%x) gives an address whose text %q does not parse back to it", b, a.String())
+		}
+	}
 	if err == nil && len(b) != 20 && len(b) != 21 {
 		msg = fmt.Sprintf("SetBytes accepted %d bytes", len(b))
 	}
